@@ -89,6 +89,7 @@ func w6qGen(r *rand.Rand, prop, tier string) *simrt.Case {
 	c.Config["disc_ttl_s"] = pkq[int64](r, 0, 0, 5, 60)
 	c.Config["manifest_ttl_s"] = pkq[int64](r, 0, 5, 60)
 	c.Config["result_ttl_s"] = pkq[int64](r, 0, 0, 0, 10)
+	c.Config["result_max_rows"] = pkq[int64](r, 10000, 10000, 2, 5) // results with more rows are served but must not be cached
 	c.Config["default_limit"] = pkq[int64](r, 1000, 1000, 3, 7)
 	c.Config["page"] = pkq[int64](r, 0, 0, 0, 2, 3)
 	c.Config["big_ts"] = pkq[int64](r, 0, 0, 0, 0, 1)
@@ -383,7 +384,7 @@ func (w *w6q) setup() {
 	cfg.DiscoveryCache = config.DiscoveryCacheConfig{TTLSeconds: int(w.c.Cfg("disc_ttl_s", 0)), MaxEntries: 10000}
 	cfg.Manifest = config.ManifestConfig{Enabled: w.c.Cfg("manifest", 0) == 1, Key: "manifest.json", TTLSeconds: int(w.c.Cfg("manifest_ttl_s", 0)), BuildLeaseTTLSeconds: 120}
 	cfg.TimeIndex = config.TimeIndexConfig{Enabled: w.c.Cfg("time_index", 0) == 1, KeySuffix: ".kfst", BuildLeaseTTLSeconds: 120}
-	cfg.ResultCache = config.ResultCacheConfig{TTLSeconds: int(w.c.Cfg("result_ttl_s", 0)), MaxEntries: 100, MaxRows: 10000}
+	cfg.ResultCache = config.ResultCacheConfig{TTLSeconds: int(w.c.Cfg("result_ttl_s", 0)), MaxEntries: 100, MaxRows: int(w.c.Cfg("result_max_rows", 10000))}
 	w.cfg = cfg
 
 	// initial contents of the bucket
